@@ -7,6 +7,7 @@ PROPERTY = 'C15'
 def harnesses(tier):
     if tier == 'quick':
         return [
+            {'name': 'earlier-link-view-N3', 'fn': graph.h_stale_link_view, 'cfg': {'N': 3, 'nW': 0, 'flat': True, 'props': ['C15'], 'ops1': ['set_preds', 'set_succs', 'pred_append', 'succ_append', 'pred_remove']}},
             {'name': 'assign-seq3-N3-W1', 'fn': graph.h_step,
              'cfg': {'prop': 'C15', 'N': 3, 'nW': 1, 'seqlen': 3, 'links': False, 'ops': ['set_children']}},
             {'name': 'sort-incomparable-key-N4', 'fn': graph.h_step,
@@ -16,6 +17,7 @@ def harnesses(tier):
              'cfg': {'prop': 'C15', 'N': 3, 'nW': 1, 'seqlen': 2, 'ops': graph.ALL_OPS}},
         ]
     return [
+        {'name': 'earlier-link-view-N3-W1', 'fn': graph.h_stale_link_view, 'cfg': {'N': 3, 'nW': 1, 'props': ['C15'], 'ops1': ['set_preds', 'set_succs', 'pred_append', 'succ_append', 'pred_remove', 'succ_remove', 'lshift', 'rshift']}},
         {'name': 'earlier-view-N3', 'fn': graph.h_stale_view, 'cfg': {'N': 3, 'nW': 1, 'props': ['C15'], 'ops1': ['ch_remove', 'wbs_remove', 'set_parent'], 'ops2': ['ch_sort', 'ch_reorder', 'ch_insert', 'ch_move', 'ch_remove']}},
         {'name': 'step-N3-W2', 'fn': graph.h_step,
          'cfg': {'prop': 'C15', 'N': 3, 'nW': 2, 'seqlen': 3, 'ops': graph.ALL_OPS}},
